@@ -811,6 +811,9 @@ Proof.
     + (* Restart *)
       rewrite gstep_unfold. cbn [step step0 st ok0 fst snd HSInv validates validated disclosed hsigned opt_cons o_secret o_hsig mem disk].
       split; [reflexivity|]. rewrite <- Hmd. unfold HIe in *. eapply HI_mono; [exact HH | lia].
+    + (* a refused setup on a ready channel *)
+      rewrite gstep_unfold. cbn [step step0 st refused fst snd HSInv validates validated disclosed hsigned opt_cons o_secret o_hsig].
+      split; [exact Hmd|]. unfold HIe in *. eapply HI_mono; [exact HH | lia].
 Qed.
 
 (** ** every history *)
